@@ -14,6 +14,7 @@ DRIVERS = {"force-time": ("harness.forcedrv", "force_trace", "ForceTrace", FAMIL
 
 def run(tier, seed):
     rep = Report("C03", tier, seed)
+    rep.add_proof("LerpEndpointsAll")
     rep.add_mc("MC_Frames", tlc.model_check("MC_Frames", "MC_Frames.cfg" if tier == "thorough" else "MC_Frames_quick.cfg",
                                             must_take=["AddFrame", "Start", "Run"]))
     rep.add_mc("MC_Frames_frame0(control)", tlc.expect_refuted("MC_Frames", "MC_Frames_frame0.cfg", "VelReadsOK"),
